@@ -616,6 +616,7 @@ package sizes
 //@ property C01: ScanRepositoryUsingGraph ScanRepositoryUsingGraph$1$1 NewGraph (*Graph).HistorySize
 //@ property C10: ScanRepositoryUsingGraph ScanRepositoryUsingGraph$1$1
 //@ property C18: ScanRepositoryUsingGraph
+//@ property C07: ScanRepositoryUsingGraph
 
 //@ func (*NameStyle).Set
 //@   modifies *n
